@@ -246,6 +246,25 @@ Definition prepare_inserts_model (orig keys : list fl) : res (list (Z * fl) * li
   Ok (adjs w, ungroup keys (inss w)).
 
 (* ---------------------------------------------------------------------------------------------- *)
+(* The path without renumbering, described without the work list: every group's new keys are get_range
+   between its neighbours and pass the implementation's own validity test. *)
+Definition group_begin (orig : list fl) (index : Z) : fl :=
+  if 0 <? index then nthZ orig (index - 1) FNaN else fzero.
+Definition group_end (orig : list fl) (index count : Z) : fl :=
+  if index <? lenZ orig then nthZ orig index FNaN
+  else fadd (fadd (group_begin orig index) (of_Z count)) (of_Z 1).
+Definition group_range (orig : list fl) (g : Z * Z) : list fl :=
+  get_range (group_begin orig (fst g)) (group_end orig (fst g) (snd g)) (snd g).
+Definition plain_group (orig : list fl) (g : Z * Z) : bool :=
+  let b := group_begin orig (fst g) in
+  let e := group_end orig (fst g) (snd g) in
+  negb (flt b fzero || fle e fzero || is_inf (fmax b e)) && flt b e &&
+  is_valid_range b (group_range orig g) e.
+Definition plain_path (orig keys : list fl) : bool := forallb (plain_group orig) (ins_groups orig keys).
+Definition plain_result (orig keys : list fl) : list fl :=
+  concat (map (group_range orig) (ins_groups orig keys)).
+
+(* ---------------------------------------------------------------------------------------------- *)
 (* The property.  [orig]: existing positions in row order (sorted); [keys]: requested positions;
    [adj]: (index into orig, new position) pairs; [ins]: the positions given to the new rows. *)
 
